@@ -273,6 +273,64 @@ def write_replay(pid, obj):
     return path
 
 
+# ---------------------------------------------------------------- re-run of mismatching model cases (opt-in)
+def _case_key(desc):
+    """a generated case is identified by its scenario tag (first token, e.g. 'sched#12', 'witness-D27'), else by its text"""
+    tok = desc.split(" ", 1)[0]
+    return tok if ("#" in tok or tok.startswith("witness")) else desc
+
+
+def rerun_mismatches(pid, tier, seed, workdir, mism):
+    """Properties whose cases come from runs of concurrent code (cfg['rerun_mismatch']): a model case that
+    mismatches is generated again by a fresh run of the harness (same seed, so the same scenario) and evaluated
+    again; it is generated a third time with the harness's wall-clock bounds widened (VERIF_RELAXED=1).  Only a
+    scenario whose case mismatches all three times is reported.  Returns (remaining mismatches, notes)."""
+    notes = []
+    keys = {_case_key(m["case"]) for m in mism}
+    for attempt, relaxed in ((1, False), (2, True)):
+        wd = workdir + "_rerun%d" % attempt
+        sh(["rm", "-rf", wd])
+        os.makedirs(wd, exist_ok=True)
+        env = dict(ENV, VERIF_RELAXED="1") if relaxed else None
+        with Lock():
+            rc, out = sh([HARNESS_BIN, "corr", pid, tier, str(seed), wd], timeout=1500, env=env)
+        if rc != 0 or not os.path.exists(os.path.join(wd, "result.json")):
+            notes.append("re-run %d of the harness for mismatching cases failed to execute; mismatches kept" % attempt)
+            return mism, notes
+        res2 = json.load(open(os.path.join(wd, "result.json")))
+        hdr, defs, descs = None, [], []
+        for sd in res2.get("shards") or []:
+            if not any(_case_key(d) in keys for d in sd["descs"]):
+                continue
+            lines = open(os.path.join(wd, sd["file"])).read().split("\n")
+            if hdr is None:
+                hdr = [l for l in lines if l.startswith("From ") or l.startswith("Open Scope")]
+            dl = [l for l in lines if re.match(r"Definition c\d+ : bool :=", l)]
+            for i, d in enumerate(sd["descs"]):
+                if _case_key(d) in keys and i < len(dl):
+                    defs.append(re.sub(r"^Definition c\d+ ", "Definition c%d " % len(defs), dl[i]))
+                    descs.append(d)
+        still = set()
+        if defs:
+            body = hdr + defs + ["Definition cases : list (N * bool) := ["]
+            body += [" (%d, c%d)%s" % (i, i, ";" if i < len(defs) - 1 else "") for i in range(len(defs))]
+            body += ["].", "Definition M := Eval vm_compute in mismatches cases.", "Print M."]
+            open(os.path.join(wd, "rerun_cases.v"), "w").write("\n".join(body) + "\n")
+            name, idx, out, dt = run_shard((wd, "rerun_cases.v"))
+            if idx is None:
+                notes.append("re-evaluation of mismatching cases failed; mismatches kept: " + out[-300:])
+                return mism, notes
+            still = {_case_key(descs[i]) for i in idx}
+        gone = keys - still
+        if gone:
+            notes.append("model case(s) that mismatched once and matched when the scenario was run again%s (machine load?): %s"
+                         % (" with relaxed wall-clock bounds" if relaxed else "", ", ".join(sorted(gone))[:400]))
+        keys = still
+        if not keys:
+            return [], notes
+    return [m for m in mism if _case_key(m["case"]) in keys], notes
+
+
 # ---------------------------------------------------------------- the check
 def check(pid, tier):
     t0 = time.time()
@@ -437,6 +495,12 @@ def check(pid, tier):
         if c in known:
             known_lines.append("KNOWN-FINDING: property=%s %s :: %s (e.g. input %s)" %
                                (pid, c, known[c], fs[0]["input"][:160]))
+    if mism and not shard_errs and cfg.get("rerun_mismatch") and not unknown_fail:
+        # (with a direct failure at hand the verdict does not rest on the model cases: no need to generate them again)
+        n0 = len(mism)
+        mism, rnotes = rerun_mismatches(pid, tier, seed, workdir, mism)
+        notes += rnotes
+        cases_ok += n0 - len(mism)
     th = tree_hash()
     # one VIOLATION line per failing class, at most 4 lines; the rest is folded into the last replay
     items = sorted(unknown_fail.items())
